@@ -43,7 +43,7 @@ def build_pinned(ps, w, init):
         name = str(v)
         if name in ("fs_separate_file_systems", "env_debug_logging"):
             x = init.get(name, False)
-        elif name.startswith("dir_") or name.startswith("fs_"):
+        elif name.startswith("dir_") or name.startswith("fs_") or name == "env_locale_is_utf8":
             x = init.get(name, True)
         elif name.startswith("bind_") or name.startswith("meta_"):
             x = init.get(name, -1)
